@@ -457,6 +457,12 @@ fn ions(spec: &ModelSpec) -> bool {
 fn temperature_k(spec: &ModelSpec, t_k: f64) -> f64 {
     if ions(spec) {
         280.0 + (t_k - 150.0) / 1350.0 * 90.0
+    } else if spec.has_association() {
+        // the association floor of the generated temperature (DESIGN 13.0; model::state_inputs applies the same):
+        // below eps_AB,max/25 the monomer fractions lose more digits than the 1e-11 sum rules can absorb (seed 503:
+        // perturbed p-nitroaniline record, eps_AB = 4669 K, at 150-187 K: separately evaluated association
+        // contributions differ by 5e-11 of the scale)
+        t_k.max(spec.max_eps_ab() / MAX_EPS_AB_OVER_T)
     } else {
         t_k
     }
